@@ -5,31 +5,34 @@ From CM Require Import Harness.RunBase Model.Exit Spec.ExitSpec Proofs.ExitFacts
 Definition tables : exit_tables :=
   mkT exit_chain write_report_status_used argparse_error_code exit_checked_groups max_workers_validated.
 
-(** world <-> 12 numbers: argparse (0 Args, 1 ParseErr, 2 EarlyExit0), bad_workers, bad_line, dir_exists,
-    sarif (0 Ok, 1 Duplicate, 2 NotFound, 3 Malformed), miss_issues, miss_hotspots, miss_dd, miss_contrast, ai_consistent, output, write_ok *)
+(** world <-> 13 numbers: argparse (0 Args, 1 ParseErr, 2 EarlyExit0), bad_workers, bad_line, dir_exists,
+    sarif (0 Ok, 1 Duplicate, 2 NotFound, 3 Malformed), miss_issues, miss_hotspots, miss_dd, miss_contrast, ai_consistent, output, write_ok, write_partial *)
 Definition nb (b : bool) : N := if b then 1%N else 0%N.
 Definition bn (n : N) : bool := negb (N.eqb n 0).
 Definition world_code (w : world) : list N :=
   [match w_argparse w with Args => 0 | ParseErr => 1 | EarlyExit0 => 2 end; nb (w_bad_workers w); nb (w_bad_line w); nb (w_dir_exists w);
    match w_sarif w with SarifOk => 0 | SarifDuplicate => 1 | SarifNotFound => 2 | SarifMalformed => 3 end;
    nb (w_miss_issues w); nb (w_miss_hotspots w); nb (w_miss_dd w); nb (w_miss_contrast w); nb (w_ai_consistent w);
-   nb (w_output w); nb (w_write_ok w)]%N.
+   nb (w_output w); nb (w_write_ok w); nb (w_write_partial w)]%N.
 Definition world_of_code (l : list N) : world :=
   let g i := nth i l 0%N in
   {| w_argparse := match g 0%nat with 0 => Args | 1 => ParseErr | _ => EarlyExit0 end%N;
      w_bad_workers := bn (g 1%nat); w_bad_line := bn (g 2%nat); w_dir_exists := bn (g 3%nat);
      w_sarif := match g 4%nat with 0 => SarifOk | 1 => SarifDuplicate | 2 => SarifNotFound | _ => SarifMalformed end%N;
      w_miss_issues := bn (g 5%nat); w_miss_hotspots := bn (g 6%nat); w_miss_dd := bn (g 7%nat); w_miss_contrast := bn (g 8%nat);
-     w_ai_consistent := bn (g 9%nat); w_output := bn (g 10%nat); w_write_ok := bn (g 11%nat) |}.
+     w_ai_consistent := bn (g 9%nat); w_output := bn (g 10%nat); w_write_ok := bn (g 11%nat); w_write_partial := bn (g 12%nat) |}.
 
-(** (world code, exit status, traceback seen, report file exists) *)
-Definition exit_case := (list N * Z * bool * bool)%type.
+(** (world code, exit status, exception escaped, what is at the --output path: 0 nothing new / 1 a file that is not a
+    complete JSON document / 2 a complete JSON document) *)
+Definition exit_case := (list N * Z * bool * N)%type.
+Definition rep_code (r : report_state) : N := match r with RNone => 0 | RPartial => 1 | RFull => 2 end%N.
+Definition rep_of_code (n : N) : report_state := match n with 0 => RNone | 1 => RPartial | _ => RFull end%N.
 
 Definition exit_model_ok (c : exit_case) : bool :=
   let '(wc, rc, tb, rep) := c in
   match run_exit tables (world_of_code wc) with
-  | Exit z r => Z.eqb rc z && Bool.eqb rep r && negb tb
-  | Crash => tb && Z.eqb rc 1 && negb rep         (* uncaught exception: the interpreter prints a traceback and exits 1 *)
+  | Exit z r => Z.eqb rc z && N.eqb rep (rep_code r) && negb tb
+  | Crash => tb && Z.eqb rc 1 && N.eqb rep 0         (* uncaught exception: the interpreter prints a traceback and exits 1 *)
   end.
 
 Definition reaches_malformed (w : world) : bool :=
@@ -44,13 +47,51 @@ Definition exit_spec_ok (c : exit_case) : bool :=
   let w := world_of_code wc in
   negb tb &&
   (if reaches_malformed w then true          (* no status is documented for an unreadable SARIF file *)
-   else Z.eqb rc (documented w) && Bool.eqb rep (report_expected w)).
+   else Z.eqb rc (documented w) && report_conforms w (rep_of_code rep)).
 
 (** active branches of the table-indexed statements, as world codes (empty list = positive branch) *)
 Definition active_exit_counterexamples : list (list N) := map world_code (exit_counterexamples tables).
 Definition active_report_counterexamples : list (list N) := map world_code (report_counterexamples tables).
 Definition active_crash_counterexamples : list (list N) := map world_code (crash_counterexamples tables).
-Definition model_of_code (wc : list N) : (Z * bool * bool) :=
-  match run_exit tables (world_of_code wc) with Exit z r => (z, r, false) | Crash => (1%Z, false, true) end.
+Definition model_of_code (wc : list N) : (Z * N * bool) :=
+  match run_exit tables (world_of_code wc) with Exit z r => (z, rep_code r, false) | Crash => (1%Z, 0%N, true) end.
 Definition documented_of_code (wc : list N) : (Z * bool) :=
-  let w := world_of_code wc in (documented w, report_expected w).
+  let w := world_of_code wc in (documented w, report_due w).
+
+(** attribution of a deviation to an argument value that argparse lets through (classes of findings/C20.json):
+    the observation is what is documented for the same world WITHOUT that argument value, or the escape of the
+    exception that value provokes (the harness checks the exception text) *)
+Definition clear_line (w : world) : world :=
+  {| w_argparse := w_argparse w; w_bad_workers := w_bad_workers w; w_bad_line := false; w_dir_exists := w_dir_exists w;
+     w_sarif := w_sarif w; w_miss_issues := w_miss_issues w; w_miss_hotspots := w_miss_hotspots w; w_miss_dd := w_miss_dd w;
+     w_miss_contrast := w_miss_contrast w; w_ai_consistent := w_ai_consistent w; w_output := w_output w;
+     w_write_ok := w_write_ok w; w_write_partial := w_write_partial w |}.
+Definition clear_workers (w : world) : world :=
+  {| w_argparse := w_argparse w; w_bad_workers := false; w_bad_line := w_bad_line w; w_dir_exists := w_dir_exists w;
+     w_sarif := w_sarif w; w_miss_issues := w_miss_issues w; w_miss_hotspots := w_miss_hotspots w; w_miss_dd := w_miss_dd w;
+     w_miss_contrast := w_miss_contrast w; w_ai_consistent := w_ai_consistent w; w_output := w_output w;
+     w_write_ok := w_write_ok w; w_write_partial := w_write_partial w |}.
+Definition as_documented (w : world) (rc : Z) (rep : N) : bool :=
+  negb (reaches_malformed w) && Z.eqb rc (documented w) && report_conforms w (rep_of_code rep).
+Definition attrib_line_ok (c : exit_case) : bool :=
+  let '(wc, rc, tb, rep) := c in let w := world_of_code wc in
+  w_bad_line w && negb tb && as_documented (clear_line w) rc rep.
+Definition attrib_workers_ok (c : exit_case) : bool :=
+  let '(wc, rc, tb, rep) := c in let w := world_of_code wc in
+  w_bad_workers w && negb tb && as_documented (clear_workers w) rc rep.
+Definition clear_contrast (w : world) : world :=
+  {| w_argparse := w_argparse w; w_bad_workers := w_bad_workers w; w_bad_line := w_bad_line w; w_dir_exists := w_dir_exists w;
+     w_sarif := w_sarif w; w_miss_issues := w_miss_issues w; w_miss_hotspots := w_miss_hotspots w; w_miss_dd := w_miss_dd w;
+     w_miss_contrast := false; w_ai_consistent := w_ai_consistent w; w_output := w_output w;
+     w_write_ok := w_write_ok w; w_write_partial := w_write_partial w |}.
+Definition attrib_contrast_ok (c : exit_case) : bool :=
+  let '(wc, rc, tb, rep) := c in let w := world_of_code wc in
+  w_miss_contrast w && negb tb && as_documented (clear_contrast w) rc rep.
+(** the status of a failed write is dropped: everything up to the write was fine (documented 2), status 0, no complete report *)
+Definition attrib_write_dropped_ok (c : exit_case) : bool :=
+  let '(wc, rc, tb, rep) := c in let w := world_of_code wc in
+  negb tb && negb (reaches_malformed w) && Z.eqb (documented w) 2 && Z.eqb rc 0 && negb (N.eqb rep 2).
+(** an escaped exception is attributable to the class only if the model reaches the statement that raises it *)
+Definition crash_reached (c : exit_case) : bool :=
+  let '(wc, rc, tb, rep) := c in
+  match run_exit tables (world_of_code wc) with Crash => tb | _ => false end.
